@@ -334,7 +334,9 @@ func (pc *PodCache) proxyUpdates(pod *v1.Pod, isPodUpdate bool) {
 func (pc *PodCache) getPodKeys(addr string) []types.NamespacedName {
 	pc.RLock()
 	defer pc.RUnlock()
-	return pc.podsByIP[addr].UnsortedList()
+	// Sorted: for an IP that several pods share, callers take the first pod that fits, and which one that is
+	// must not depend on the iteration order of the set.
+	return slices.SortBy(pc.podsByIP[addr].UnsortedList(), func(k types.NamespacedName) string { return k.String() })
 }
 
 // getIPByPod returns the pod IP or empty string if pod not found.
